@@ -44,21 +44,21 @@ OPT = r'^(?:std::option::|core::option::)?Option::<.*>::'
 def opt_map(ctx, args, st):
     o, f = args
     if o.variant == 'None': return ret(st, NONE)
-    return wrap_each(ctx.ex.call_value(f, [o.items[0]], st, ctx.depth), Some)
+    return wrap_each(ctx.ex.call_value(f, [o.items[0]], st, ctx.depth, ctx.callee), Some)
 
 
 @model(OPT + r'and_then::<')
 def opt_and_then(ctx, args, st):
     o, f = args
     if o.variant == 'None': return ret(st, NONE)
-    return ctx.ex.call_value(f, [o.items[0]], st, ctx.depth)
+    return ctx.ex.call_value(f, [o.items[0]], st, ctx.depth, ctx.callee)
 
 
 @model(OPT + r'or_else::<')
 def opt_or_else(ctx, args, st):
     o, f = args
     if o.variant == 'Some': return ret(st, o)
-    return ctx.ex.call_value(f, [], st, ctx.depth)
+    return ctx.ex.call_value(f, [], st, ctx.depth, ctx.callee)
 
 
 @model(OPT + r'or$')
@@ -71,7 +71,7 @@ def opt_or(ctx, args, st):
 def opt_ok_or_else(ctx, args, st):
     o, f = args
     if o.variant == 'Some': return ret(st, Ok(o.items[0]))
-    return wrap_each(ctx.ex.call_value(f, [], st, ctx.depth), Err)
+    return wrap_each(ctx.ex.call_value(f, [], st, ctx.depth, ctx.callee), Err)
 
 
 @model(OPT + r'ok_or::<')
@@ -84,20 +84,20 @@ def opt_ok_or(ctx, args, st):
 def opt_unwrap_or_else(ctx, args, st):
     o, f = args
     if o.variant == 'Some': return ret(st, o.items[0])
-    return ctx.ex.call_value(f, [], st, ctx.depth)
+    return ctx.ex.call_value(f, [], st, ctx.depth, ctx.callee)
 
 
 @model(OPT + r'map_or_else::<')
 def opt_map_or_else(ctx, args, st):
     o, d, f = args
-    if o.variant == 'Some': return ctx.ex.call_value(f, [o.items[0]], st, ctx.depth)
-    return ctx.ex.call_value(d, [], st, ctx.depth)
+    if o.variant == 'Some': return ctx.ex.call_value(f, [o.items[0]], st, ctx.depth, ctx.callee)
+    return ctx.ex.call_value(d, [], st, ctx.depth, ctx.callee)
 
 
 @model(OPT + r'map_or::<')
 def opt_map_or(ctx, args, st):
     o, d, f = args
-    if o.variant == 'Some': return ctx.ex.call_value(f, [o.items[0]], st, ctx.depth)
+    if o.variant == 'Some': return ctx.ex.call_value(f, [o.items[0]], st, ctx.depth, ctx.callee)
     return ret(st, d)
 
 
@@ -206,7 +206,7 @@ def opt_filter(ctx, args, st):
     if o.variant == 'None': return ret(st, NONE)
     def g():
         r = st.ref(o.items[0])
-        for s2, kind, val in ctx.ex.call_value(f, [r], st, ctx.depth):
+        for s2, kind, val in ctx.ex.call_value(f, [r], st, ctx.depth, ctx.callee):
             if kind != 'ret': yield s2, kind, val; continue
             for s3, b in ctx.ex.fork_bool(s2, val.e):
                 yield s3, 'ret', (o if b else NONE)
@@ -221,35 +221,35 @@ RES = r'^(?:std::result::|core::result::)?Result::<.*>::'
 def res_map(ctx, args, st):
     r, f = args
     if r.variant == 'Err': return ret(st, r)
-    return wrap_each(ctx.ex.call_value(f, [r.items[0]], st, ctx.depth), Ok)
+    return wrap_each(ctx.ex.call_value(f, [r.items[0]], st, ctx.depth, ctx.callee), Ok)
 
 
 @model(RES + r'map_err::<')
 def res_map_err(ctx, args, st):
     r, f = args
     if r.variant == 'Ok': return ret(st, r)
-    return wrap_each(ctx.ex.call_value(f, [r.items[0]], st, ctx.depth), Err)
+    return wrap_each(ctx.ex.call_value(f, [r.items[0]], st, ctx.depth, ctx.callee), Err)
 
 
 @model(RES + r'and_then::<')
 def res_and_then(ctx, args, st):
     r, f = args
     if r.variant == 'Err': return ret(st, r)
-    return ctx.ex.call_value(f, [r.items[0]], st, ctx.depth)
+    return ctx.ex.call_value(f, [r.items[0]], st, ctx.depth, ctx.callee)
 
 
 @model(RES + r'or_else::<')
 def res_or_else(ctx, args, st):
     r, f = args
     if r.variant == 'Ok': return ret(st, r)
-    return ctx.ex.call_value(f, [r.items[0]], st, ctx.depth)
+    return ctx.ex.call_value(f, [r.items[0]], st, ctx.depth, ctx.callee)
 
 
 @model(RES + r'unwrap_or_else::<')
 def res_unwrap_or_else(ctx, args, st):
     r, f = args
     if r.variant == 'Ok': return ret(st, r.items[0])
-    return ctx.ex.call_value(f, [r.items[0]], st, ctx.depth)
+    return ctx.ex.call_value(f, [r.items[0]], st, ctx.depth, ctx.callee)
 
 
 @model(RES + r'unwrap_or$')
@@ -769,7 +769,7 @@ def opt_inspect(ctx, args, st):
     if o.variant == 'None': return ret(st, NONE)
     def g():
         r = st.ref(o.items[0])
-        for s2, kind, val in ctx.ex.call_value(f, [r], st, ctx.depth):
+        for s2, kind, val in ctx.ex.call_value(f, [r], st, ctx.depth, ctx.callee):
             if kind != 'ret': yield s2, kind, val
             else: yield s2, 'ret', Some(s2.deref(r))
     return g()
